@@ -144,6 +144,21 @@ func synthTTF(n, glyfSize int) (*sfnt.Font, map[int][]seg, error) {
 		if blank {
 			o.Glyphs = append(o.Glyphs, nil)
 			want[i] = nil
+		} else if glyfSize == 0 && n >= 12 && i >= 3 && i%11 == 5 {
+			// a composite glyph: glyph 1 at offset (0,0); every second one
+			// carries the WE_HAVE_INSTRUCTIONS flag with an EMPTY instruction
+			// block (numInstr = 0: legal, written by some tools, and what the
+			// library's decoder hands back for such a glyph)
+			c := glyf.CompositeGlyph{Components: []glyf.GlyphComponent{{
+				Flags: glyf.FlagArg1And2AreWords | glyf.FlagArgsAreXYValues, GlyphIndex: 1, Data: []byte{0, 0, 0, 0}}}}
+			if i%22 == 5 {
+				c.Components[0].Flags |= glyf.FlagWeHaveInstructions
+				c.Instructions = []byte{}
+			}
+			o.Glyphs = append(o.Glyphs, &glyf.Glyph{Rect16: triGlyph(1, 0).Rect16, Data: c})
+			want[i] = triSegs(1)
+			o.Maxp.MaxComponentElements, o.Maxp.MaxComponentDepth = 1, 1
+			o.Maxp.MaxCompositePoints, o.Maxp.MaxCompositeContours = 3, 1
 		} else {
 			o.Glyphs = append(o.Glyphs, triGlyph(i, 0))
 			want[i] = triSegs(i)
